@@ -340,7 +340,12 @@ def r3_every_segment(ctx):
                 exits = [x for x in ast.walk(w) if isinstance(x, (ast.Break, ast.Return))]
                 ok_exits = all(isinstance(A.enclosing(x, (ast.ExceptHandler,)), ast.ExceptHandler)
                                and 'IterOutOfBounds' in norm(A.enclosing(x, (ast.ExceptHandler,)).type or '') for x in exits)
-                if not exits or not ok_exits:
+                if not exits:
+                    # no break at all: only an exception ends the loop - it must be the cursor's own, caught right outside
+                    tr = A.enclosing(w, (ast.Try,))
+                    ok_exits = tr is not None and w in tr.body and bool(tr.handlers) \
+                        and all('IterOutOfBounds' in norm(h.type or '') for h in tr.handlers)
+                if not ok_exits:
                     why = 'the collection loop can end before the cursor is exhausted'
                 else:
                     wn = [n for n in g.nodes if n.kind == 'loophead' and n.stmt is w]
